@@ -2,6 +2,7 @@
 From Coq Require Import List Arith Bool Lia.
 From StgV Require Import Model.StackSpec Model.LocatorSpec Proofs.CharsProofs Proofs.NameProofs Proofs.LocatorProofs
   Proofs.ChainBasics Proofs.ChainTxn Proofs.ChainExec Proofs.PickBasics Proofs.UncommitNames.
+From StgV Require Proofs.WfCmd.
 Import ListNotations.
 Local Open Scope nat_scope.
 
@@ -871,97 +872,6 @@ Proof.
   rewrite Hw. cbn. auto 10.
 Qed.
 
-Lemma refresh_second_rinv : forall K tmpname pn l t0,
-  tinv K t0 -> t_head t0 = None ->
-  t_applied t0 = (l ++ [pn]) ++ [tmpname] -> pn <> tmpname ->
-  rinv K
-    (match t_patch t0 pn, t_patch t0 tmpname with
-     | Some pc, Some tc =>
-         let old := get (t_objs t0) pc in
-         let new_tree := tree_of (t_objs t0) tc in
-         let t1 :=
-           if tree_eqb new_tree (tree_of (t_objs t0) pc) then (t0, None)
-           else
-             let '(objs', o) :=
-               put (t_objs t0)
-                   (plain (parents_of (t_objs t0) pc) new_tree
-                          (match old with Some c => c_meta c | None => 0%N end)
-                          (subj_of (t_objs t0) pc)) in
-             (set_objs t0 objs', Some o) in
-         let '(t2, _) := delete_patches (fun n => name_eqb n tmpname) (fst t1) in
-         match snd t1 with
-         | Some o => update_patch pn o t2
-         | None => TOk t2
-         end
-     | _, _ => TPanic
-     end).
-Proof.
-  intros K tmpname pn l t0 H0 Hh0 Ha Hne.
-  destruct (t_patch t0 pn) as [pc|] eqn:Epc; [|exact I].
-  destruct (t_patch t0 tmpname) as [tc|] eqn:Etc; [|exact I].
-  cbv zeta. destruct (tree_eqb _ _).
-  - cbn [fst snd].
-    destruct (delete_patches_inv K (fun n => name_eqb n tmpname) t0 H0 Hh0) as (H2 & Hh2 & _).
-    destruct (delete_patches _ t0) as [t2 inc]. cbn [fst] in *. cbn. auto.
-  - unfold put. cbn [fst snd].
-    set (c := plain _ _ _ _). set (t1 := set_objs t0 (t_objs t0 ++ [c])).
-    assert (H1 : tinv K t1). { apply tinv_set_objs; [exact H0|]. now apply ns_extends_app1. }
-    destruct (delete_patches_inv K (fun n => name_eqb n tmpname) t1 H1 Hh0)
-      as (H2 & Hh2 & popped & E1 & E2 & _ & E3).
-    pose proof (delete_patches_patch (fun n => name_eqb n tmpname) t1 pn (name_eqb_neq _ _ Hne)) as Hp2.
-    pose proof (delete_patches_objs (fun n => name_eqb n tmpname) t1) as Ho2.
-    destruct (delete_patches _ t1) as [t2 inc]. cbn [fst] in *.
-    change (t_applied t1) with (t_applied t0) in E1. rewrite Ha in E1.
-    assert (Ha2 : t_applied t2 = l ++ [pn]).
-    { pose proof (ti_nodup K t0 H0) as Hnd. rewrite Ha in Hnd.
-      destruct E3 as [->|[x [r [-> Hx]]]].
-      - exfalso. rewrite app_nil_r in E1. rewrite Forall_forall in E2.
-        assert (Hi : In tmpname (t_applied t2)). { rewrite <- E1. apply in_or_app. right. now left. }
-        specialize (E2 _ Hi). cbv beta in E2. now rewrite name_eqb_refl in E2.
-      - apply name_eqb_eq in Hx. subst x. symmetry in E1.
-        now destruct (snoc_split_unique _ _ _ _ E1 Hnd). }
-    eapply rinvP_rinv. apply (update_top_inv K pn _ pc l); [exact H2|exact Hh2|exact Ha2| |].
-    + rewrite Hp2. exact Epc.
-    + rewrite Ho2. unfold t1. cbn [t_objs set_objs]. unfold c. rewrite parents_put_new.
-      destruct (ti_single K t0 H0 _ _ Epc) as [p Hp]. rewrite Hp. symmetry.
-      apply (parents_of_ext (t_objs t0)); [apply store_extends_app|exact Hp].
-Qed.
-
-Lemma step_refresh : forall w, Inv w -> CInv w -> CInv (fst (run_refresh w)).
-Proof.
-  intros w Hinv Hc. unfold run_refresh.
-  open_cmd Hinv Hc op Eop Hok. cbv zeta.
-  set (s := op_state op) in *.
-  destruct (negb (head_top_ok op)); [triv Hc Hok|].
-  destruct (last_error (s_applied s)) as [pn|] eqn:El; [|triv Hc Hok].
-  destruct (w_unmerged (op_world op)); [triv Hc Hok|].
-  unfold put. set (tmpc := length (w_objs (op_world op))).
-  set (c := plain _ _ _ _). set (objs1 := w_objs (op_world op) ++ [c]).
-  set (tmpname := match uniquify s_refresh_temp [] (all_of s) with UOk n => n | UFuel => s_refresh_temp end).
-  pose proof (refresh_tmpname_fresh (all_of s)) as Hfresh. fold tmpname in Hfresh.
-  pose proof (opened_ok_with_objs op objs1 Hok (ns_extends_put_plain _ _ _ _ _)) as Hok1.
-  set (op1 := mkOpened _ _ _ _) in *.
-  destruct (transact op1 default_opts (new_applied tmpname tmpc) MOp) as [w2 x] eqn:Et1.
-  assert (C2 : CInv w2).
-  { change w2 with (fst (w2, x)). rewrite <- Et1.
-    eapply transact_cinv_rinv; [exact Hok1|]. intros t0 H0 Hh0 E0. eapply rinvP_rinv.
-    apply new_applied_inv; [exact H0|exact Hh0| |]; subst t0.
-    - intros Hi. apply Hfresh. unfold all_of. apply in_or_app. now left.
-    - eexists. apply parents_put_new. }
-  destruct x; try exact C2.
-  destruct (refresh_first op1 tmpname tmpc w2 Hok1 Hfresh) as (_ & s2 & Hcur & Hg2 & Ha2 & Hpg2 & Hext2);
-    [eexists; apply parents_put_new|exact Et1|].
-  destruct (open_stack PAllow w2) as [op2|] eqn:Eop2; [|exact C2].
-  assert (Hcg : cur_good w2). { intros s' Hs'. rewrite Hcur in Hs'. now injection Hs' as <-. }
-  destruct (open_stack_ok_gen _ _ _ Eop2 Hcg C2) as (Hok2 & _ & _).
-  destruct (open_stack_cur _ _ _ s2 Eop2 ltac:(discriminate) Hcur) as (Es2 & _).
-  apply last_error_split in El as [l El].
-  eapply transact_cinv_rinv; [exact Hok2|]. intros t0 H0 Hh0 E0.
-  apply (refresh_second_rinv _ tmpname pn l); [exact H0|exact Hh0| |].
-  - subst t0. cbn [begin_txn t_applied]. rewrite Es2, Ha2. cbn [op1 op_state]. fold s. now rewrite El.
-  - intros ->. apply Hfresh. unfold all_of. apply in_or_app. left. rewrite El. apply in_or_app. right. now left.
-Qed.
-
 (* ---------------------------------------------------------------- repair *)
 
 (* the commits visited by the first-parent walk, top first, with their patch names *)
@@ -1566,6 +1476,173 @@ Proof.
   - exact Epc.
   - cbn [begin_txn t_objs op_world with_objs w_objs]. unfold objs', c. rewrite parents_put_new.
     unfold parents_of. now rewrite (get_app_some _ _ _ _ Eg).
+Qed.
+
+(* ---------------------------------------------------------------- refresh *)
+
+Lemma after_name_app_in : forall pn A r, In pn A -> after_name pn (A ++ r) = after_name pn A ++ r.
+Proof.
+  intros pn A r. induction A as [|x A IH]; intros Hin; [destruct Hin|]. cbn [after_name app].
+  destruct (name_eqb x pn) eqn:E; [reflexivity|]. apply name_eqb_false in E.
+  destruct Hin as [->|Hin]; [congruence|]. now apply IH.
+Qed.
+
+(* the EditBuilder step of refresh *)
+Lemma refresh_commit_inv : forall K t pc tr t2 newc,
+  tinv K t -> (exists n, t_patch t n = Some pc) -> refresh_commit t pc tr = (t2, newc) ->
+  tinv K t2 /\ t_head t2 = t_head t /\ t_applied t2 = t_applied t
+  /\ (forall m, t_patch t2 m = t_patch t m)
+  /\ (forall o, newc = Some o -> parents_of (t_objs t2) o = parents_of (t_objs t2) pc).
+Proof.
+  intros K t pc tr t2 newc H [n Hn] E. unfold refresh_commit in E.
+  destruct (tree_eqb _ _).
+  - injection E as <- <-. split; [exact H|]. do 3 (split; [reflexivity|]). intros o Eo. discriminate.
+  - unfold put in E. injection E as <- <-. split; [|do 3 (split; [reflexivity|])].
+    + apply tinv_set_objs; [exact H|]. now apply ns_extends_app1.
+    + intros o Eo. injection Eo as <-. cbn [t_objs set_objs]. rewrite parents_put_new.
+      destruct (ti_single K t H _ _ Hn) as [q Hq]. rewrite Hq. symmetry.
+      apply (parents_of_ext (t_objs t)); [apply store_extends_app|exact Hq].
+Qed.
+
+Lemma nodup_app_l : forall (A : Type) (a b : list A), NoDup (a ++ b) -> NoDup a.
+Proof. intros A a b H. now apply nodup_app in H as [? _]. Qed.
+
+Lemma refresh_absorb_rinv : forall K tmpname pn A t0,
+  tinv K t0 -> t_head t0 = None -> t_applied t0 = A ++ [tmpname] -> pn <> tmpname ->
+  rinv K (refresh_absorb pn tmpname t0).
+Proof.
+  intros K tmpname pn A t0 H0 Hh0 Ha Hne. unfold refresh_absorb.
+  pose proof (ti_nodup K t0 H0) as Hnd.
+  assert (Hnt : name_eqb pn tmpname = false) by now apply name_eqb_neq.
+  destruct (mem pn (t_applied t0)) eqn:Em.
+  - apply mem_In in Em. rewrite Ha in Em. apply in_app_or in Em as [Hin|[Hx|[]]]; [|congruence].
+    cbv zeta. rewrite Ha, (after_name_app_in pn A [tmpname] Hin).
+    destruct (after_name_split pn A) as [[Hn _]|[pre Hpre]]; [contradiction|].
+    set (R := after_name pn A) in *.
+    assert (Ha' : t_applied t0 = (pre ++ [pn]) ++ (R ++ [tmpname])).
+    { rewrite Ha, Hpre at 1. now rewrite <- !app_assoc. }
+    pose proof Hnd as Hnd0. rewrite Ha' in Hnd.
+    assert (Hnd1 : NoDup ((pre ++ [pn]) ++ [tmpname])).
+    { apply (nodup_sub_app _ _ _ _ _ Hnd).
+      - now apply nodup_app_l in Hnd.
+      - constructor; [intros []|constructor].
+      - apply incl_refl.
+      - intros x [<-|[]]. apply in_or_app. right. now left. }
+    assert (Hnd2 : NoDup ((pre ++ [pn]) ++ R)).
+    { apply (nodup_sub_app _ _ _ _ _ Hnd).
+      - now apply nodup_app_l in Hnd.
+      - apply nodup_app in Hnd as (_ & Hr & _). now apply nodup_app_l in Hr.
+      - apply incl_refl.
+      - intros x Hx. apply in_or_app. now left. }
+    apply (rinvP_bind K (fun t1 => t_applied t1 = (pre ++ [pn]) ++ [tmpname])).
+    + destruct (Nat.ltb 1 (length (R ++ [tmpname]))) eqn:El.
+      * pose proof (pop_patches_inv K (fun n => mem n (R ++ [tmpname])) t0 H0 Hh0) as Hp.
+        cbv zeta in Hp.
+        rewrite (pop_above t0 _ _ Ha' Hnd0) in Hp |- *. cbn [fst] in Hp. cbv beta iota.
+        destruct Hp as (H1 & Hh1 & _).
+        eapply rinvP_weaken; [|apply push_patches_inv; [exact H1|exact Hh1|exact Hnd1]].
+        intros t1 E1. exact E1.
+      * cbn [rinvP]. split; [exact H0|]. split; [exact Hh0|]. rewrite Ha'.
+        destruct R as [|y r]; [reflexivity|].
+        apply Nat.ltb_ge in El. rewrite app_length in El. cbn [length] in El. lia.
+    + intros t1 H1 Hh1 Ha1.
+      destruct (t_patch t1 pn) as [pc|] eqn:Epc; [|exact I].
+      destruct (t_patch t1 tmpname) as [tc|] eqn:Etc; [|exact I].
+      unfold last_error. rewrite hd_error_rev_snoc, name_eqb_refl. cbn [negb].
+      rewrite removelast_last.
+      destruct (refresh_commit t1 pc (tree_of (t_objs t1) tc)) as [t2 newc] eqn:Erc.
+      destruct (refresh_commit_inv K t1 pc _ t2 newc H1 (ex_intro _ pn Epc) Erc)
+        as (H2 & Hh2 & Ha2 & Hp2 & Hpar2).
+      rewrite Hh1 in Hh2. rewrite Ha1 in Ha2.
+      destruct (delete_patches_inv K (fun n => name_eqb n tmpname) t2 H2 Hh2)
+        as (H3 & Hh3 & popped & E1 & E2 & _ & E3).
+      pose proof (delete_patches_patch (fun n => name_eqb n tmpname) t2 pn Hnt) as Hp3.
+      pose proof (delete_patches_objs (fun n => name_eqb n tmpname) t2) as Ho3.
+      destruct (delete_patches _ t2) as [t3 inc]. cbn [fst] in *.
+      assert (Ha3 : t_applied t3 = pre ++ [pn]).
+      { rewrite Ha2 in E1. destruct E3 as [->|[x [r [-> Hx]]]].
+        - exfalso. rewrite app_nil_r in E1. rewrite Forall_forall in E2.
+          assert (Hi : In tmpname (t_applied t3)). { rewrite <- E1. apply in_or_app. right. now left. }
+          specialize (E2 _ Hi). cbv beta in E2. now rewrite name_eqb_refl in E2.
+        - apply name_eqb_eq in Hx. subst x. symmetry in E1.
+          now destruct (snoc_split_unique _ _ _ _ E1 Hnd1). }
+      assert (Hpush : forall t4, tinv K t4 -> t_head t4 = None -> t_applied t4 = t_applied t3 ->
+                rinvP K (fun _ => True) (push_patches R false t4)).
+      { intros t4 H4 Hh4 Ha4. eapply rinvP_weaken; [|apply push_patches_inv; [exact H4|exact Hh4|]]; [auto|].
+        rewrite Ha4, Ha3. exact Hnd2. }
+      destruct newc as [o|]; cbn [tbind].
+      * eapply rinvP_bind; [apply (update_top_inv K pn o pc pre t3 H3 Hh3 Ha3)|].
+        -- rewrite Hp3, Hp2. exact Epc.
+        -- rewrite Ho3. now apply Hpar2.
+        -- cbv beta. intros t4 H4 Hh4 Ha4. now apply Hpush.
+      * now apply Hpush.
+  - apply mem_false in Em.
+    pose proof (pop_patches_inv K (fun n => name_eqb n tmpname) t0 H0 Hh0) as Hp. cbv zeta in Hp.
+    destruct (pop_patches _ t0) as [t1 extra]. cbn [fst snd] in Hp.
+    destruct Hp as (H1 & Hh1 & popped & E1 & _).
+    assert (Hn1 : ~ In pn (t_applied t1)).
+    { intros Hi. apply Em. rewrite E1. apply in_or_app. now left. }
+    destruct extra; [|exact I].
+    destruct (t_patch t1 pn) as [pc|] eqn:Epc; [|exact I].
+    destruct (t_patch t1 tmpname) as [tc|] eqn:Etc; [|exact I].
+    destruct (first_parent _ _) as [tpar|]; [|exact (ti_ext K t1 H1)].
+    destruct (apply3way _ _ _ _) as [tree'|]; [|cbn; auto].
+    destruct (refresh_commit t1 pc tree') as [t2 newc] eqn:Erc.
+    destruct (refresh_commit_inv K t1 pc _ t2 newc H1 (ex_intro _ pn Epc) Erc)
+      as (H2 & Hh2 & Ha2 & Hp2 & Hpar2).
+    rewrite Hh1 in Hh2.
+    assert (Hdel : forall t3, tinv K t3 -> t_head t3 = None ->
+              rinvP K (fun _ => True) (TOk (fst (delete_patches (fun n => name_eqb n tmpname) t3)))).
+    { intros t3 H3 Hh3. destruct (delete_patches_inv K (fun n => name_eqb n tmpname) t3 H3 Hh3) as (H4 & Hh4 & _).
+      cbn [rinvP]. auto. }
+    destruct newc as [o|]; cbn [tbind].
+    + eapply rinvP_bind; [apply (update_notin_inv K pn o pc t2 H2 Hh2)|].
+      * now rewrite Ha2.
+      * now rewrite Hp2.
+      * now apply Hpar2.
+      * cbv beta. intros t3 H3 Hh3 _. now apply Hdel.
+    + now apply Hdel.
+Qed.
+
+Lemma step_refresh : forall w p, Inv w -> CInv w -> CInv (fst (run_refresh w p)).
+Proof.
+  intros w p Hinv Hc. unfold run_refresh.
+  destruct (match p with
+            | Some o => match parse_locator o with Some l => Some (Some l) | None => None end
+            | None => Some None end) as [loc_l|] eqn:Ep; [|exact Hc].
+  pose proof (WfCmd.refresh_loc_wf p loc_l Ep) as Hwf. clear Ep.
+  open_cmd Hinv Hc op Eop Hok. cbv zeta.
+  set (s := op_state op) in *.
+  destruct (negb (head_top_ok op)); [triv Hc Hok|].
+  match goal with |- CInv (fst (rres_bind _ ?r _)) => destruct r as [pn| |] eqn:Epn end;
+    [|triv Hc Hok|triv Hc Hok].
+  cbn [rres_bind].
+  pose proof (WfCmd.refresh_target_in s loc_l pn Hwf Epn) as Hpn.
+  destruct (w_unmerged (op_world op)); [triv Hc Hok|].
+  unfold put. set (tmpc := length (w_objs (op_world op))).
+  set (c := plain _ _ _ _). set (objs1 := w_objs (op_world op) ++ [c]).
+  set (tmpname := match uniquify s_refresh_temp [] (all_of s) with UOk n => n | UFuel => s_refresh_temp end).
+  pose proof (refresh_tmpname_fresh (all_of s)) as Hfresh. fold tmpname in Hfresh.
+  pose proof (opened_ok_with_objs op objs1 Hok (ns_extends_put_plain _ _ _ _ _)) as Hok1.
+  set (op1 := mkOpened _ _ _ _) in *.
+  destruct (transact op1 default_opts (new_applied tmpname tmpc) MOp) as [w2 x] eqn:Et1.
+  assert (C2 : CInv w2).
+  { change w2 with (fst (w2, x)). rewrite <- Et1.
+    eapply transact_cinv_rinv; [exact Hok1|]. intros t0 H0 Hh0 E0. eapply rinvP_rinv.
+    apply new_applied_inv; [exact H0|exact Hh0| |]; subst t0.
+    - intros Hi. apply Hfresh. unfold all_of. apply in_or_app. now left.
+    - eexists. apply parents_put_new. }
+  destruct x; try exact C2.
+  destruct (refresh_first op1 tmpname tmpc w2 Hok1 Hfresh) as (_ & s2 & Hcur & Hg2 & Ha2 & Hpg2 & Hext2);
+    [eexists; apply parents_put_new|exact Et1|].
+  destruct (open_stack PAllow w2) as [op2|] eqn:Eop2; [|exact C2].
+  assert (Hcg : cur_good w2). { intros s' Hs'. rewrite Hcur in Hs'. now injection Hs' as <-. }
+  destruct (open_stack_ok_gen _ _ _ Eop2 Hcg C2) as (Hok2 & _ & _).
+  destruct (open_stack_cur _ _ _ s2 Eop2 ltac:(discriminate) Hcur) as (Es2 & _).
+  eapply transact_cinv_rinv; [exact Hok2|]. intros t0 H0 Hh0 E0.
+  apply (refresh_absorb_rinv _ tmpname pn (s_applied s)); [exact H0|exact Hh0| |].
+  - subst t0. cbn [begin_txn t_applied]. rewrite Es2, Ha2. reflexivity.
+  - intros ->. apply Hfresh. unfold all_of. rewrite app_assoc. apply in_or_app. now left.
 Qed.
 
 (* ---------------------------------------------------------------- rebase *)
